@@ -40,9 +40,13 @@ def call_key(call):
 def replay_src(c0, calls):
     return (REPLAY_PRELUDE + circ.circ_src(c0) + "\nimport copy\nfrom checks import mutators\n"
             f"calls={calls!r}\nbad=[]\n"
+            "from checks.c02 import check_copy_independent\n"
             "for call in calls:\n"
+            "    prev=c\n"
             "    c=mutators.apply_call(c, call)\n"
-            "bad=circ.wf_problems(c)\n"
+            "    if call['kind']=='copy':\n"
+            "        bad+=check_copy_independent(None, prev, c, None, None); c=prev\n"
+            "bad+=circ.wf_problems(c)\n"
             "if not bad:\n"
             "    try:\n        cp=copy.copy(c)\n        if not (cp==c): bad.append('copy differs')\n"
             "    except Exception as e:\n        bad.append(('copy raised', type(e).__name__, str(e)))\n"
